@@ -96,6 +96,17 @@ def discharge_one(job):
             r, dt, model, reason = _check_z3(smt2, full, seed=7)
             res["ms"] += int(dt * 1000)
             res.update(result=r, backend="z3-" + z3.get_version_string() + "(seed 7)", model=model, reason=reason)
+        if opts.get("cross") and res["result"] == "unsat" and "lambda" not in smt2:
+            # thorough tier: the other back end is asked as well; `sat` from one and `unsat` from the other means one of
+            # them (or the translation) is wrong - reported as a checker error, never as a verdict
+            if res["backend"].startswith("z3"):
+                r2, dt2 = _check_cvc5(smt2, opts.get("cross_s", 10))
+            else:
+                r2, dt2, _, _ = _check_z3(smt2, opts.get("cross_s", 10) * 1000, want_model=False)
+            res["ms"] += int(dt2 * 1000)
+            res["cross"] = r2
+            if r2 == "sat":
+                res["conflict"] = True
     except Exception as e:  # solver crash: undecided, never a violation by itself
         res.update(result="error", reason=f"{type(e).__name__}: {e}")
     return res
